@@ -26,7 +26,7 @@ const char *vprop_class_names[V_NCLASS] = {
   #ifdef C03_MODE
   "trailing_guard", "leading_guard", "unmapped_row_gaps", "generated_c_path", "negative_stride", "variable_classes_filled_to_limit", NULL
 #else
-  "saves_callee_regs", "sets_mxcsr", "uses_mmx_regs", "(unused)", "negative_stride", "variable_classes_filled_to_limit", NULL
+  "saves_callee_regs", "sets_mxcsr", "uses_mmx_regs", "(unused)", "negative_stride", "variable_classes_filled_to_limit", "ran_as_32bit_code", "ran_as_32bit_code_with_frame_pointer", NULL
 #endif
 };
 
@@ -34,11 +34,18 @@ static const char *tnames[3] = { "avx", "sse", "mmx" };
 static int int_ops[256], n_int_ops;
 int c01_float_mode = 0;       /* C18 reuses this harness with float programs */
 
+#ifdef C10_MODE
+#include "../engine/run32.h"
+static int run32_ok = -1;
+#endif
 void vprop_init (int argc, char **argv)
 {
   int i;
   (void) argc; (void) argv;
   orc_init ();
+#ifdef C10_MODE
+  run32_ok = run32_probe ();
+#endif
   for (i = 0; i < v_noptab; i++) {
     const VOp *op = &v_optab[i];
     if (op->flags & VOP_INVARIANT) continue;
@@ -175,6 +182,64 @@ static int run_one (OrcProgram *p, ProgSpec *ps, RunCfg *rc, VResult *r, const c
   }
   munmap (page, 3 * 4096);
   arena_free (&an);
+  return bad;
+}
+
+/* ---- the same program compiled as 32-bit code (the target's default flags without 64BIT, with or without the frame-pointer flag)
+   and run inside this process through a far call into the compatibility-mode code segment (engine/run32.c): everything it touches
+   lies below 4 GiB.  Judged: the i386 callee-saved registers ebx, esi, edi, ebp, the stack pointer, MXCSR control bits, the
+   direction flag, the x87/MMX tag word, and (integer programs) the results against emulation ---- */
+static int run32_program (ProgSpec *ps, RunCfg *rc, VResult *r, int t, uint64_t h)
+{
+  static const unsigned bit64[3] = { ORC_TARGET_SSE_64BIT, ORC_TARGET_SSE_64BIT, ORC_TARGET_MMX_64BIT };
+  static const unsigned bitfp[3] = { ORC_TARGET_SSE_FRAME_POINTER, ORC_TARGET_SSE_FRAME_POINTER, ORC_TARGET_MMX_FRAME_POINTER };
+  OrcTarget *target = orc_target_get_by_name (tnames[t]);
+  unsigned flags = (orc_target_get_default_flags (target) & ~bit64[t]) | ((h & 1) ? bitfp[t] : 0);
+  OrcProgram *p;
+  OrcCompileResult res;
+  Arena an, ae;
+  OrcExecutor *ex, exe;
+  Run32State st;
+  char msg[1024], sig[V_SIG_MAX];
+  int i, bad = 0;
+  if (run32_ok <= 0 || run32_init ()) return 0;
+  p = ps_build (ps);
+  v_stage (r, "@notmine: compile 32-bit target=%s flags=0x%x", tnames[t], flags);
+  res = orc_program_compile_full (p, target, flags);
+  if (!ORC_COMPILE_RESULT_IS_SUCCESSFUL (res) || !p->orccode || p->orccode->code_size <= 0) { orc_program_free (p); return 0; }
+  arena_map_32bit = 1;
+  if (arena_build (&an, ps, rc, 0)) { arena_map_32bit = 0; arena_free (&an); orc_program_free (p); return 0; }
+  arena_map_32bit = 0;
+  if (arena_build (&ae, ps, rc, 0)) { arena_free (&an); arena_free (&ae); orc_program_free (p); return 0; }
+  ex = (OrcExecutor *) run32_executor_mem ();
+  exec_setup (ex, p, NULL, ps, rc, &an);
+  exec_setup (&exe, p, NULL, ps, rc, &ae);
+  memset (&st, 0, sizeof st);
+  for (i = 0; i < 4; i++) st.seed[i] = (uint32_t) v_mix64 (h + 77 + (uint64_t) i) | 1u;
+  st.mxcsr_in = (h >> 9) & 1 ? 0x1f80 : 0x5f80;            /* default, or round-towards-plus-infinity: must come back unchanged */
+  v_desc (r, "# 32-bit run: target=%s flags=0x%x (%s frame pointer), %d bytes of code\n", tnames[t], flags, (h & 1) ? "with" : "no", p->orccode->code_size);
+  v_stage (r, "run-native-32bit target=%s flags=0x%x", tnames[t], flags);
+  if (run32_call (p->orccode->code, p->orccode->code_size, ex, &st)) { arena_free (&an); arena_free (&ae); orc_program_free (p); return 0; }
+  v_stage (r, "judge 32-bit machine state");
+  orc_executor_emulate (&exe);
+  msg[0] = 0;
+  {
+    static const char *names[4] = { "ebx", "esi", "edi", "ebp" };
+    for (i = 0; i < 4 && !msg[0]; i++)
+      if (st.out[i] != st.seed[i]) { snprintf (msg, sizeof msg, "32-bit code: callee-saved register %s not preserved: 0x%08x on entry, 0x%08x on return", names[i], st.seed[i], st.out[i]); snprintf (sig, sizeof sig, "abi32:callee-saved target=%s", tnames[t]); }
+  }
+  if (!msg[0] && st.esp_after != st.esp_before) { snprintf (msg, sizeof msg, "32-bit code: stack pointer changed by %d bytes", (int) (st.esp_after - st.esp_before)); snprintf (sig, sizeof sig, "abi32:stack-pointer target=%s", tnames[t]); }
+  if (!msg[0] && (st.mxcsr_out & 0xffc0) != (st.mxcsr_in & 0xffc0)) { snprintf (msg, sizeof msg, "32-bit code: MXCSR control bits changed: 0x%04x -> 0x%04x", st.mxcsr_in & 0xffc0, st.mxcsr_out & 0xffc0); snprintf (sig, sizeof sig, "abi32:mxcsr target=%s", tnames[t]); }
+  if (!msg[0] && st.fputag_out != 0xffff) { snprintf (msg, sizeof msg, "32-bit code: x87/MMX register stack not empty on return (tag word 0x%04x)", st.fputag_out); snprintf (sig, sizeof sig, "abi32:x87-tags target=%s", tnames[t]); }
+  if (!msg[0] && st.df_out) { snprintf (msg, sizeof msg, "32-bit code: direction flag set on return"); snprintf (sig, sizeof sig, "abi32:direction-flag target=%s", tnames[t]); }
+  if (!msg[0] && !ps->has_float && arena_compare (&an, &ae, ps, rc, ex, &exe, msg, sizeof msg)) snprintf (sig, sizeof sig, "abi32:wrong-result target=%s", tnames[t]);
+  if (!msg[0] && arena_check_untouched (&an, ps, rc, msg, sizeof msg)) snprintf (sig, sizeof sig, "abi32:stray-write target=%s", tnames[t]);
+  if (msg[0]) { v_fail (r, sig, "%s", msg); rc_print (ps, rc, r); bad = 1; }
+  r->classes |= 1u << 26;
+  if (h & 1) r->classes |= 1u << 27;
+  r->sub_evals++; r->sub_nontrivial++;
+  arena_free (&an); arena_free (&ae);
+  orc_program_free (p);
   return bad;
 }
 #elif defined(C03_MODE)
@@ -496,6 +561,16 @@ void vprop_case (VChoices *c, VResult *r)
       if (run_one (p, &ps, &rc, r, tnames[t])) rc_print (&ps, &rc, r);
     }
   }
+#ifdef C10_MODE
+  /* every other case: the program once more as 32-bit code (only default-flag known-finding-free shapes reach this point) */
+  if (r->verdict != V_FAIL && (h >> 5) % 2 == 0 && !(t == 2 && ps.has_64 && ps.has_special_load)) {
+    RunOpts ro32;
+    memset (&ro32, 0, sizeof ro32);
+    ro32.n_max = 100; ro32.m_max = 3; ro32.placement_mask = 1;
+    rc_generate (c, &ps, &ro32, &rc);
+    run32_program (&ps, &rc, r, t, h);
+  }
+#endif
   orc_program_free (p);
 
   r->hash = h;
